@@ -779,6 +779,9 @@ namespace ip {
 
 		int remote = m_channel->remote_idx(m_bound_to);
 		p.hops = m_channel->hops[remote];
+		// the hop that dropped the packet took the drop notification out of it.
+		// Without a new one a second drop of the retransmission goes unnoticed
+		p.drop_fun = std::bind(&tcp::socket::packet_dropped, this, _1);
 		m_outgoing_packets.push_back(std::move(p));
 
 		const int packets_in_cwnd = m_cwnd / m_mss;
